@@ -340,6 +340,7 @@ def run(ctx, only_scripts=None):
         e2e_runs = fam_e2e.c17_runs(ctx, binp)
         nreq = len(e2e_runs)
         e2e_runs += fam_e2e.c17_reconnect_runs(ctx, binp)
+        e2e_runs += fam_e2e.many_reconnects_run(ctx, binp)
         if tier == "thorough":
             e2e_runs += fam_e2e.c17_periodic_run(ctx, binp)      # the daemon's own one-minute test recording (75 s of real time)
         for v in fam_e2e.judge_c11(ctx, e2e_runs, binp):
